@@ -1,6 +1,6 @@
 (* Proofs/C03_proofs.v — expiry and revocation are final, cascade, and are isolated. *)
 From Coq Require Import Lia ZArith List Bool.
-From Verif Require Import Lib.Base Lib.PyStr Model.Session Proofs.Session_proofs.
+From Verif Require Import Lib.Base Lib.PyStr Model.Session Proofs.Session_proofs Proofs.C05a_proofs.
 Import ListNotations.
 Open Scope Z_scope.
 
@@ -57,6 +57,8 @@ Proof.
   - unfold do_api_revoke. repeat dm; cbn; lia.
   - repeat dm; cbn; lia.
   - repeat dm; cbn; lia.
+  - repeat dm; cbn; lia.
+  - repeat dm; cbn; lia.
   - cbn. lia.
 Qed.
 
@@ -83,7 +85,7 @@ Lemma userinfo_dead c s id g t : find_tok id s = Some (g, t) -> dead (now s) t -
 Proof.
   intros Hf D. unfold do_userinfo, resolve_as. rewrite Hf. unfold dead in D.
   destruct (t_cls t); cbn [tcls_eqb]; try (destruct (c_shared_key c); cbn; discriminate); try (cbn; discriminate).
-  rewrite D. cbn. discriminate.
+  destruct (g_removed g); [cbn; discriminate|]. rewrite D. cbn. discriminate.
 Qed.
 Lemma introspect_dead c s cl id g t : find_tok id s = Some (g, t) -> dead (now s) t ->
   forall sc cl' k, snd (do_introspect c s cl (TRef id)) <> OActive sc cl' k.
@@ -96,13 +98,14 @@ Lemma refresh_parse_dead c s cl id g t sc : find_tok id s = Some (g, t) -> dead 
 Proof.
   intros Hf D. unfold do_refresh_parse, resolve_as. rewrite Hf. unfold dead in D.
   destruct (t_cls t); cbn [tcls_eqb]; try (destruct (c_shared_key c); cbn; discriminate); try (cbn; discriminate).
-  rewrite D. cbn. discriminate.
+  destruct (g_removed g); [cbn; discriminate|]. rewrite D. cbn. discriminate.
 Qed.
 Lemma token_parse_dead c s cl id g t rd : find_tok id s = Some (g, t) -> dead (now s) t ->
   snd (do_token_parse c s cl (TRef id) rd) <> OOk.
 Proof.
   intros Hf D. unfold do_token_parse, resolve_as. rewrite Hf. unfold dead in D.
   destruct (t_cls t); cbn [tcls_eqb]; try (destruct (c_shared_key c); cbn; discriminate); try (cbn; discriminate).
+  destruct (g_removed g); [cbn; discriminate|].
   destruct (c_oidc c && negb (t_used t =? 0)); [cbn; discriminate|]. rewrite D. cbn. destruct (c_oidc c); discriminate.
 Qed.
 
@@ -146,18 +149,18 @@ Proof.
   rewrite Hg, Nat.eqb_refl. eauto.
 Qed.
 Theorem revoke_client_cascade s g k t h :
-  tget k s = Some t -> nth_error (grants s) (t_grant t) = Some h -> same_branch g h = true ->
+  tget k s = Some t -> nth_error (grants s) (t_grant t) = Some h -> live_branch g h = true ->
   exists t', tget k (revoke_branch g s) = Some t' /\ t_revoked t' = true.
 Proof.
   intros H Hh Hb. unfold tget, revoke_branch, in_branch in *; cbn. rewrite nth_error_map, H; cbn. rewrite Hh, Hb. eauto.
 Qed.
 (* recursive token revocation: the token and everything minted from it, transitively *)
 Theorem api_revoke_recursive s id g t k tk :
-  find_tok id s = Some (g, t) -> tget k s = Some tk -> t_grant tk = t_grant t ->
+  find_tok id s = Some (g, t) -> g_removed g = false -> tget k s = Some tk -> t_grant tk = t_grant t ->
   (k = id \/ derived_from (S (length (toks s))) (upd_nth id revoke_t (toks s)) tk id = true) ->
   exists tk', tget k (fst (do_api_revoke s id true)) = Some tk' /\ t_revoked tk' = true.
 Proof.
-  intros Hf Hk Hg Hd. unfold do_api_revoke. rewrite Hf. cbn [fst]. unfold revoke_derived, map_toks, tget in *; cbn -[derived_from].
+  intros Hf Hrm Hk Hg Hd. unfold do_api_revoke. rewrite Hf, Hrm. cbn [fst]. unfold revoke_derived, map_toks, tget in *; cbn -[derived_from].
   rewrite nth_error_map. destruct Hd as [->|Hd].
   - rewrite nth_upd_same, Hk. cbn -[derived_from]. destruct (_ && _); cbn; eauto.
   - destruct (Nat.eq_dec id k) as [->|N].
@@ -178,7 +181,7 @@ Theorem api_revoke_isolation s id rec g t k tk :
   find_tok id s = Some (g, t) -> tget k s = Some tk -> t_grant tk <> t_grant t ->
   tget k (fst (do_api_revoke s id rec)) = Some tk.
 Proof.
-  intros Hf Hk N. unfold do_api_revoke. rewrite Hf. cbn [fst].
+  intros Hf Hk N. unfold do_api_revoke. rewrite Hf. destruct (g_removed g); [exact Hk|]. cbn [fst].
   assert (k <> id) as Nk. { intros ->. apply find_tok_tget in Hf as (Ht&_). rewrite Hk in Ht. inversion Ht; subst. now apply N. }
   destruct rec; unfold revoke_derived, map_toks, upd_tok, tget in *; cbn.
   - rewrite nth_error_map, nth_upd_other, Hk by auto. cbn. apply Nat.eqb_neq in N. now rewrite N.
@@ -193,4 +196,200 @@ Proof.
               | H : (if ?b then _ else _) = RTok _ _ _ |- _ => destruct b; try discriminate
               | H : RTok _ _ _ = RTok _ _ _ |- _ => inversion H; subst; clear H
               end; congruence.
+Qed.
+
+(* ================================================================== remove-session and the user session *)
+(* A grant taken out of the database (SessionManager.remove_session) stays out; its fields never change again. *)
+Lemma gext_refl s : gext s s.
+Proof. intros gi g H. eauto using g_le_refl. Qed.
+Lemma g_le_trans a b c : g_le a b -> g_le b c -> g_le a c.
+Proof. unfold g_le. intros (A1&A2&A3&A4&A5&A6&A7&A8) (B1&B2&B3&B4&B5&B6&B7&B8). repeat split; try congruence; auto. Qed.
+Lemma gext_trans a b c : gext a b -> gext b c -> gext a c.
+Proof. intros H1 H2 gi g H. destruct (H1 _ _ H) as (g1&E1&L1). destruct (H2 _ _ E1) as (g2&E2&L2). eauto using g_le_trans. Qed.
+Lemma run_gext c ops : forall s, gext s (fst (run c s ops)).
+Proof.
+  induction ops as [|o r IH]; intros s; cbn [run]; [apply gext_refl|].
+  destruct (step c s o) as [s1 x] eqn:E. specialize (IH s1). destruct (run c s1 r) as [s2 xs]. cbn [fst] in *.
+  eapply gext_trans; [|exact IH]. pose proof (step_gext c s o) as H. now rewrite E in H.
+Qed.
+Theorem removed_forever c ops s gi g :
+  nth_error (grants s) gi = Some g -> g_removed g = true ->
+  exists g', nth_error (grants (fst (run c s ops))) gi = Some g' /\ g_removed g' = true /\
+             g_user g' = g_user g /\ g_client g' = g_client g.
+Proof.
+  intros H R. destruct (run_gext c ops s gi g H) as (g'&H'&(L1&L2&_&_&_&_&_&L8)). exists g'. repeat split; auto.
+Qed.
+
+(* what "no endpoint honours token k" means in state s: no user info, never reported active, refused by both parse
+   steps of the token endpoint, and no pending request made with it mints anything *)
+Definition never_honoured (c : cfg) (s : st) (k : nat) : Prop :=
+  snd (do_userinfo c s (TRef k)) <> OUserinfo /\
+  (forall cl sc cl' cls, snd (do_introspect c s cl (TRef k)) <> OActive sc cl' cls) /\
+  (forall cl sc, snd (do_refresh_parse c s cl (TRef k) sc) <> OOk) /\
+  (forall cl rd, snd (do_token_parse c s cl (TRef k) rd) <> OOk) /\
+  (forall idx kw cl redir,
+     (nth_error (parsed s) idx = Some (PCode cl k redir) \/ exists sc, nth_error (parsed s) idx = Some (PRefresh cl k sc)) ->
+     forall a r i sc, snd (do_process c s idx kw) <> OTokens a r i sc).
+
+Lemma never_honoured_unfold c s k :
+  never_honoured c s k <->
+  (snd (do_userinfo c s (TRef k)) <> OUserinfo /\
+   (forall cl sc cl' cls, snd (do_introspect c s cl (TRef k)) <> OActive sc cl' cls) /\
+   (forall cl sc, snd (do_refresh_parse c s cl (TRef k) sc) <> OOk) /\
+   (forall cl rd, snd (do_token_parse c s cl (TRef k) rd) <> OOk) /\
+   (forall idx kw cl redir,
+      (nth_error (parsed s) idx = Some (PCode cl k redir) \/ exists sc, nth_error (parsed s) idx = Some (PRefresh cl k sc)) ->
+      forall a r i sc, snd (do_process c s idx kw) <> OTokens a r i sc)).
+Proof. unfold never_honoured. apply iff_refl. Qed.
+
+(* a token whose grant was removed is refused everywhere, whatever its own flags say *)
+Lemma userinfo_removed c s id g t : find_tok id s = Some (g, t) -> g_removed g = true -> snd (do_userinfo c s (TRef id)) <> OUserinfo.
+Proof.
+  intros Hf R. unfold do_userinfo, resolve_as. rewrite Hf, R.
+  destruct (t_cls t); cbn [tcls_eqb]; try (destruct (c_shared_key c); cbn; discriminate); cbn; discriminate.
+Qed.
+Lemma introspect_removed c s cl id g t : find_tok id s = Some (g, t) -> g_removed g = true ->
+  forall sc cl' k, snd (do_introspect c s cl (TRef id)) <> OActive sc cl' k.
+Proof.
+  intros Hf R sc cl' k. unfold do_introspect, resolve_any. rewrite Hf, R.
+  destruct (t_cls t); repeat dm; cbn; discriminate.
+Qed.
+Lemma refresh_parse_removed c s cl id g t sc : find_tok id s = Some (g, t) -> g_removed g = true ->
+  snd (do_refresh_parse c s cl (TRef id) sc) <> OOk.
+Proof.
+  intros Hf R. unfold do_refresh_parse, resolve_as. rewrite Hf, R.
+  destruct (t_cls t); cbn [tcls_eqb]; try (destruct (c_shared_key c); cbn; discriminate); cbn; discriminate.
+Qed.
+Lemma token_parse_removed c s cl id g t rd : find_tok id s = Some (g, t) -> g_removed g = true ->
+  snd (do_token_parse c s cl (TRef id) rd) <> OOk.
+Proof.
+  intros Hf R. unfold do_token_parse, resolve_as. rewrite Hf, R.
+  destruct (t_cls t); cbn [tcls_eqb]; try (destruct (c_shared_key c); cbn; discriminate); cbn; discriminate.
+Qed.
+Lemma process_removed c s idx kw cl id redir g t :
+  (nth_error (parsed s) idx = Some (PCode cl id redir) \/ exists sc, nth_error (parsed s) idx = Some (PRefresh cl id sc)) ->
+  find_tok id s = Some (g, t) -> g_removed g = true ->
+  forall a r i sc, snd (do_process c s idx kw) <> OTokens a r i sc.
+Proof.
+  intros Hp Hf R a r i sc. unfold do_process. destruct Hp as [Hp|[sc0 Hp]]; rewrite Hp.
+  - unfold do_code_process. rewrite Hf. cbv zeta. rewrite R. cbn. discriminate.
+  - unfold do_refresh_process. rewrite Hf. cbv zeta. rewrite R. cbn. discriminate.
+Qed.
+
+(* dead, or out of the database *)
+Definition unusable (s : st) (g : grant) (t : token) : Prop := dead (now s) t \/ g_removed g = true.
+Theorem unusable_refused c s k g t : find_tok k s = Some (g, t) -> unusable s g t -> never_honoured c s k.
+Proof.
+  intros Hf [D|R]; repeat split.
+  - eapply userinfo_dead; eauto.
+  - intros. eapply introspect_dead; eauto.
+  - intros. eapply refresh_parse_dead; eauto.
+  - intros. eapply token_parse_dead; eauto.
+  - intros idx kw cl redir Hp. eapply process_dead_mints_nothing; eauto.
+  - eapply userinfo_removed; eauto.
+  - intros. eapply introspect_removed; eauto.
+  - intros. eapply refresh_parse_removed; eauto.
+  - intros. eapply token_parse_removed; eauto.
+  - intros idx kw cl redir Hp. eapply process_removed; eauto.
+Qed.
+Lemma find_tok_intro s k t g : tget k s = Some t -> nth_error (grants s) (t_grant t) = Some g -> find_tok k s = Some (g, t).
+Proof. unfold tget, find_tok. intros -> ->. reflexivity. Qed.
+Theorem unusable_forever c ops s k g t :
+  find_tok k s = Some (g, t) -> unusable s g t ->
+  exists g' t', find_tok k (fst (run c s ops)) = Some (g', t') /\ unusable (fst (run c s ops)) g' t' /\
+                t_grant t' = t_grant t /\ g_user g' = g_user g /\ g_client g' = g_client g.
+Proof.
+  intros Hf U. apply find_tok_tget in Hf as (Ht&Hg).
+  destruct (run_ext c ops s k t Ht) as (t'&Ht'&L). pose proof L as (L1&_).
+  destruct (run_gext c ops s _ g Hg) as (g'&Hg'&(G1&G2&_&_&_&_&_&G8)).
+  exists g', t'. split; [apply find_tok_intro; [exact Ht'|now rewrite L1]|]. repeat split; auto.
+  destruct U as [D|R]; [left|right; auto].
+  destruct (dead_forever c ops s k t Ht D) as (t2&Ht2&D2). rewrite Ht' in Ht2. inversion Ht2; subst. exact D2.
+Qed.
+
+(* REMOVE-SESSION IS FINAL: after SessionManager.remove_session on grant gi, whatever operations follow, no token
+   of that grant is honoured by any endpoint again *)
+Theorem remove_grant_final c s gi g ops k t :
+  nth_error (grants s) gi = Some g -> tget k s = Some t -> t_grant t = gi ->
+  never_honoured c (fst (run c (fst (step c s (RemoveGrant gi))) ops)) k.
+Proof.
+  intros Hg Ht E. cbn [step]. rewrite Hg. cbn [fst].
+  assert (Hf : find_tok k (upd_grant gi remove_g s) = Some (remove_g g, t)).
+  { apply find_tok_intro; [exact Ht|]. unfold upd_grant; cbn. rewrite E, nth_upd_same, Hg. reflexivity. }
+  destruct (unusable_forever c ops _ k _ t Hf) as (g'&t'&Hf'&U&_); [right; reflexivity|].
+  eapply unusable_refused; eauto.
+Qed.
+(* ... and it touches nothing else: every token keeps its flags, counters and expiry; every other grant is unchanged *)
+Theorem remove_grant_isolation c s gi :
+  toks (fst (step c s (RemoveGrant gi))) = toks s /\ now (fst (step c s (RemoveGrant gi))) = now s /\
+  parsed (fst (step c s (RemoveGrant gi))) = parsed s /\
+  forall gj, gj <> gi -> nth_error (grants (fst (step c s (RemoveGrant gi)))) gj = nth_error (grants s) gj.
+Proof.
+  cbn [step]. destruct (nth_error (grants s) gi); cbn [fst]; repeat split; auto.
+  intros gj N. unfold upd_grant; cbn. now rewrite nth_upd_other by auto.
+Qed.
+
+(* LOGOUT EVERYWHERE CASCADES: revocation of a user session revokes every token of every grant of that user, at every
+   client, that is still in the database (the others are out of the database, hence refused as well) *)
+Theorem revoke_user_cascade s g k t h :
+  tget k s = Some t -> nth_error (grants s) (t_grant t) = Some h -> same_user g h = true ->
+  exists t', tget k (revoke_user g s) = Some t' /\ t_grant t' = t_grant t /\ (t_revoked t' = true \/ g_removed h = true).
+Proof.
+  intros H Hh Hu. unfold tget, revoke_user, in_user, live_user in *; cbn. rewrite nth_error_map, H; cbn. rewrite Hh, Hu.
+  destruct (g_removed h); cbn; eauto.
+Qed.
+Lemma revoke_user_grant s g gi h :
+  nth_error (grants s) gi = Some h ->
+  exists h', nth_error (grants (revoke_user g s)) gi = Some h' /\ g_removed h' = g_removed h /\ g_user h' = g_user h.
+Proof.
+  intros Hh. unfold revoke_user; cbn. rewrite nth_error_map, Hh; cbn. destruct (live_user g h); eauto.
+Qed.
+Lemma no_live_user_removed g gs j h :
+  existsb (live_user g) gs = false -> nth_error gs j = Some h -> same_user g h = true -> g_removed h = true.
+Proof.
+  intros He Hn Hu. destruct (g_removed h) eqn:R; auto. exfalso.
+  assert (existsb (live_user g) gs = true); [|congruence].
+  apply existsb_exists. exists h. split; [eapply nth_error_In; eauto|]. unfold live_user. now rewrite Hu, R.
+Qed.
+Theorem revoke_user_kills c s gi g k t h :
+  nth_error (grants s) gi = Some g -> tget k s = Some t -> nth_error (grants s) (t_grant t) = Some h -> same_user g h = true ->
+  exists h' t', find_tok k (fst (step c s (RevokeUser gi))) = Some (h', t') /\
+                (t_revoked t' = true \/ g_removed h' = true).
+Proof.
+  intros Hg Ht Hh Hu. cbn [step]. rewrite Hg. destruct (existsb (live_user g) (grants s)) eqn:He; cbn [fst].
+  - destruct (revoke_user_cascade s g k t h Ht Hh Hu) as (t'&Ht'&E&K).
+    destruct (revoke_user_grant s g _ h Hh) as (h'&Hh'&R&_).
+    exists h', t'. split; [apply find_tok_intro; [exact Ht'|now rewrite E]|]. destruct K; [left|right]; congruence.
+  - exists h, t. split; [now apply find_tok_intro|]. right. eapply no_live_user_removed; eauto.
+Qed.
+Theorem revoke_user_final c s gi g ops k t h :
+  nth_error (grants s) gi = Some g -> tget k s = Some t -> nth_error (grants s) (t_grant t) = Some h -> same_user g h = true ->
+  never_honoured c (fst (run c (fst (step c s (RevokeUser gi))) ops)) k.
+Proof.
+  intros Hg Ht Hh Hu. destruct (revoke_user_kills c s gi g k t h Hg Ht Hh Hu) as (h'&t'&Hf&K).
+  destruct (unusable_forever c ops _ k h' t' Hf) as (g2&t2&Hf2&U&_).
+  { destruct K as [K|K]; [left; apply dead_cases; auto|right; auto]. }
+  eapply unusable_refused; eauto.
+Qed.
+(* ... and leaves every token and every grant of every other user exactly as it was *)
+Theorem revoke_user_isolation c s gi k t h :
+  tget k s = Some t -> nth_error (grants s) (t_grant t) = Some h ->
+  (forall g, nth_error (grants s) gi = Some g -> same_user g h = false) ->
+  tget k (fst (step c s (RevokeUser gi))) = Some t /\
+  nth_error (grants (fst (step c s (RevokeUser gi)))) (t_grant t) = Some h.
+Proof.
+  intros Ht Hh Hu. cbn [step]. destruct (nth_error (grants s) gi) as [g|] eqn:Hg; cbn [fst]; auto.
+  specialize (Hu g eq_refl). destruct (existsb (live_user g) (grants s)); cbn [fst]; auto.
+  unfold tget, revoke_user, in_user, live_user in *; cbn. rewrite !nth_error_map, Ht, Hh; cbn. rewrite Hh, Hu. cbn. auto.
+Qed.
+(* the client-session revocation (logout from one client) seen as a step: same statement for the other branches *)
+Theorem revoke_client_step_isolation c s gi k t h :
+  tget k s = Some t -> nth_error (grants s) (t_grant t) = Some h ->
+  (forall g, nth_error (grants s) gi = Some g -> same_branch g h = false) ->
+  tget k (fst (step c s (RevokeClient gi))) = Some t /\
+  nth_error (grants (fst (step c s (RevokeClient gi)))) (t_grant t) = Some h.
+Proof.
+  intros Ht Hh Hu. cbn [step]. destruct (nth_error (grants s) gi) as [g|] eqn:Hg; cbn [fst]; auto.
+  specialize (Hu g eq_refl). destruct (existsb (live_branch g) (grants s)); cbn [fst]; auto.
+  unfold tget, revoke_branch, in_branch, live_branch in *; cbn. rewrite !nth_error_map, Ht, Hh; cbn. rewrite Hh, Hu. cbn. auto.
 Qed.
